@@ -95,6 +95,7 @@ class Lockstep(vcgen.Unit):
         super().__init__(cfunc, contract, consts, contracts, active if active is not None else {})
         self.p = pyfunc
         self.ev.emit_safety = False
+        self.ev.assume_store_fits = False
         self.pev = sym.Evaluator(pyfunc)      # python-side evaluator
         self.pev.emit_safety = False
         self.pev.globals = dict(self.consts)
@@ -106,6 +107,7 @@ class Lockstep(vcgen.Unit):
         self.ev.store_log = None
         self.aligned_pairs = 0
         self.unaligned = None
+        self._last_src = {}
 
     def py_call(self, ev, e, st):
         raise Misaligned("definition calls %s" % e[1])
@@ -190,7 +192,10 @@ class Lockstep(vcgen.Unit):
         for n in sorted(ca):
             va, vb = a.vars[n], b.vars[n]
             ty = a.types.get(n)
-            if ty and ty != "py" and vb.k != "ptr":
+            same_signed = ty in ("i32", "i64") and self._last_src.get(n) == ty
+            # (signed arithmetic carried out in the variable's own type is mathematical on the C side,
+            #  so the definition's value is compared unconverted)
+            if ty and ty != "py" and vb.k != "ptr" and not same_signed:
                 vb = self.ev.coerce(vb, ty)
             self.ob("E.value", self.same(va, vb), st, "%s: same value assigned on both sides" % n, line)
         if len(clog) != len(plog):
@@ -200,7 +205,10 @@ class Lockstep(vcgen.Unit):
                 raise Misaligned("stores go to different arrays %s / %s (line %s)" % (arr1, arr2, line))
             self.ob("E.index", i1 == i2, st, "%s[...]: same index written on both sides" % arr1, line)
             ety = self.ev.elem.get(arr1, "py")
-            vb = self.ev.coerce(v2, ety) if ety != "py" else v2
+            same_signed = bool(sty1) and unconst(sty1) == ety and ety in ("i32", "i64")
+            # signed arithmetic is mathematical on the C side (overflow is undefined behaviour):
+            # no conversion happened there, so none is applied to the definition's value either
+            vb = self.ev.coerce(v2, ety) if ety != "py" and not same_signed else v2
             va = self.ev.coerce(v1, ety) if ety != "py" and not (sty1 and unconst(sty1) == ety and ety != "bool") else v1
             self.ob("E.value", self.same(va, vb), st, "%s[...]: same value written on both sides" % arr1, line)
         self.aligned_pairs += 1
@@ -219,6 +227,15 @@ class Lockstep(vcgen.Unit):
 
     def _run_simple(self, ev, s, st, log):
         orig = ev.store
+        orig_assign = ev.assign
+        if ev is self.ev:
+            self._last_src = {}
+
+            def logging_assign(lv, v, st_, src_ty=None):
+                if lv[0] == "v":
+                    self._last_src[lv[1]] = unconst(src_ty) if src_ty else None
+                return orig_assign(lv, v, st_, src_ty)
+            ev.assign = logging_assign
 
         def logging_store(arr, idx, v, st_, src_ty=None):
             log.append((arr, idx, v, src_ty))
@@ -229,13 +246,15 @@ class Lockstep(vcgen.Unit):
                 v = ev.ev(s[2], st)
                 if s[3] and s[1][0] == "v":
                     st.types[s[1][1]] = unconst(s[3])
-                ev.assign(s[1], v, st, sym.expr_type(s[2]) if ev is self.ev else None)
+                conv = s[2][0] == "cast" and s[2][3] != "noop"
+                ev.assign(s[1], v, st, sym.expr_type(s[2]) if (ev is self.ev and not conv) else None)
             elif s[0] == "effect":
                 ev.ev(s[1], st)
             else:
                 raise Misaligned("not a simple statement: %s" % s[0])
         finally:
             ev.store = orig
+            ev.assign = orig_assign
 
     def pair_stmt(self, c, p, st):
         kc, kp = c[0], p[0]
